@@ -19,7 +19,10 @@ import vbuild, vcheck
 LEVEL = "proof"
 NS = "Adept.Matmul."
 REQUIRED = ["C15_gemm_path", "C15_gemv_path", "C15_vecmat_path", "C15_gemm_reads_within", "C15_gemv_reads_within",
-            "C15_errors_mm", "C15_errors_mv", "C15_symv_path", "C15_symm_path", "C15_gbmv_path"]
+            "C15_prepared_operand", "C15_errors_mm", "C15_errors_mv", "C15_errors_special",
+            "C15_symv_path", "C15_vecsym_path", "C15_symm_path", "C15_matsym_path", "C15_sym_reads_within",
+            "C15_gbmv_path", "C15_vecband_path", "C15_bandmat_path", "C15_matband_path", "C15_gbmv_reads_within",
+            "C15_active_product_mm", "C15_active_product_mv"]
 H = os.path.join(vbuild.VERIF, "harness")
 SRCS = ["drv_matmul.cpp", "drv_matmul_f1.cpp", "drv_matmul_f2.cpp"] + ["drv_matmul_s%d.cpp" % i for i in range(1, 7)]
 EXTENTS = [1, 2, 3, 5, 8]
@@ -567,7 +570,7 @@ def shrink(case, regen, still_fails, budget=60):
 
 def run(ctx, replay):
     thms = [NS + t for t in vcheck.prop_theorems("AdeptProofs/Props/C15.lean", "C15_")]
-    fails = vcheck.lean_gate(ctx, ["AdeptProofs.Props.C15"], thms, required=[NS + r for r in REQUIRED])
+    fails = vcheck.lean_gate(ctx, ["AdeptProofs.Props.C15", "AdeptProofs.Refute.Matmul"], thms, required=[NS + r for r in REQUIRED])
     exe = build()
     lines, rc, err = vcheck.run_impl(exe, [], "cfg 0\n")
     pw = int(lines[0].split()[1]) if lines and lines[0].startswith("cfg ") else 0
